@@ -41,6 +41,19 @@ TEXT = {
     "C13": ("model_checking", "Explicit-state model checking of the real QVectorBuilder over push/extend histories with all integer types, plus "
             "bounded-exhaustive collect for every integer type.", "§4 C13",
             "explicit-state BFS (stateright) over builder histories of the real code + bounded-exhaustive inputs"),
+    "C09": (E1[0], "For every tree of a bounded family built to stress the prefetch estimates, rank_prefetch is compared with rank on every "
+            "position and a symbol alphabet, in three (thorough: four) builds, and the digests of all answers are compared between the "
+            "builds with and without the prefetch feature; faults are caught by the child-process monitor.", "§4 C09",
+            "bounded-exhaustive differential exploration (rank_prefetch vs rank; feature on vs off) on the real code"),
+    "C10": (E1[0], "Every unchecked method is compared with its checked twin on every precondition-satisfying argument of the bounded "
+            "input zoo, in the optimized build and in the build with debug assertions and overflow checks.", "§4 C10",
+            "bounded-exhaustive differential exploration (unchecked vs checked) in two build profiles"),
+    "C11": (E1[0], "Every value of the bounded zoo makes the bincode round trip; equality, byte identity and the digest of the complete "
+            "query sweep are compared.", "§4 C11",
+            "bounded-exhaustive round-trip exploration on the real code (differential oracle)"),
+    "C19": (E1[0], "All construction paths, clones, all ordered pairs of distinct short inputs and all element widths are compared "
+            "differentially over the bounded zoo.", "§4 C19",
+            "bounded-exhaustive differential exploration of construction paths / copies / element widths"),
 }
 
 NOTE = {
@@ -48,6 +61,10 @@ NOTE = {
     "C02": "Trusted: reference model, the hook's permutation code (add-only, off by default), minimum_redundancy (used only to label code shapes). Known finding KF2 (codes > 32 bits).",
     "C03": "Trusted: reference model, hook permutation code. Known finding KF2 (binary codes > 32 bits).",
     "C08": "Trusted: Vec<bool> reference, stateright's BFS. Known finding KF1 (BitVectorMut::get_bits off by one, pinned by the repository's own test). Depth bounds in the evidence.",
+    "C09": "Trusted: the explorer's digest; rank itself is validated by C01/C02. Prefetch intrinsics have no architectural effect, so only panics, faults and answer changes are observable. Known finding KF2 does not arise below 17 levels.",
+    "C10": "Trusted: the reference model decides which arguments satisfy the precondition. Known finding KF1 (BitVectorMut::get_bits None at index+len==len while get_bits_unchecked answers).",
+    "C11": "Trusted: bincode; PartialEq of the types (also exercised by C19).",
+    "C19": "Trusted: the digest. Position-list constructors are compared on vectors ending with a one (a position list cannot express trailing zeros).",
     "C12": "Trusted: VecDeque reference. Double-ended histories are exhaustive for sequences up to length 4; longer inputs only for the forward iterators.",
     "C13": "Trusted: Vec<u8> reference (v mod 4 in two's complement), stateright's BFS.",
     "C05": "Trusted: reference model (Vec<u8>), runner. Lengths near 2^43 (44-bit counters) not reachable.",
@@ -93,6 +110,8 @@ def main():
              "kind_free_text": "E1 bounded-exhaustive input-space explorer + E3 tie-order choice explorer for the wavelet trees"},
             {"name": "mc_hist", "path": "/verif/mc/src/bin/mc_hist.rs", "serves_properties": ["C08", "C12", "C13"],
              "kind_free_text": "E2 history explorers: stateright BFS over BitVectorMut / QVectorBuilder histories, exhaustive iterator call histories"},
+            {"name": "mc_diff", "path": "/verif/mc/src/bin/mc_diff.rs", "serves_properties": ["C09", "C10", "C11", "C19"],
+             "kind_free_text": "E1 differential explorers: prefetch vs plain rank and feature on/off digests, unchecked vs checked, bincode round trip, construction paths / clones / widths"},
             {"name": "mc_vectors", "path": "/verif/mc/src/bin/mc_vectors.rs", "serves_properties": ["C05", "C06", "C07"],
              "kind_free_text": "E1 bounded-exhaustive input-space explorer for RSQVector, RSNarrow/RSWide and DArray"},
         ],
